@@ -1118,9 +1118,9 @@ theorem device_attest_apple_ignores_account_key (th : Option Str) :
       .val ⟨.valid, .none, .ok, .none, true⟩ := by
   cases th <;> rfl
 
-/-- **Refutation (D14, tpm half; model only — not reproduced without TPM-signed structures)**: a
-    `tpm` attestation whose AK certificate lists no permanent identifier is accepted for any
-    identifier. -/
+/-- **Refutation (D14, tpm half; reproduced on the real code with software-built TPM
+    structures)**: a `tpm` attestation whose AK certificate lists no permanent identifier is
+    accepted for any identifier. -/
 theorem device_attest_valid_only_if_refuted_tpm : ¬ DaFull := by
   intro hall
   have := hall wHash true wCh (wIn .tpm (.tpm ⟨.ok, s "tok.thumb" ++ [0], false, true, []⟩))
